@@ -8,9 +8,11 @@ CONF = dict(
  '(lvm, argument) setter pairs, histories on one reused Packet and buffer. CSPTP message / request TLV / response TLV: the same sweeps per field, buffers of the '
  'declared length +-1 and longer filled with non-zero bytes, decode into structs holding other values, ill-formed values (ServerStateDS without the flag), '
  'histories encode/decode/replace-buffer. NTS: packets with 32..72-byte identifiers (aligned and not), 0..8 cookies of 0..140 bytes, 0..8 placeholders, '
- 'encrypted cookie plaintexts, fresh and stale 1024-byte caller buffers, sizes at 1020/1024/1028 bytes, oversized packets; decoder fed mutated/truncated/lying '
+ 'cookies / identifiers up to ~900 bytes (255/256/257/300/512 included), 32- and 64-byte keys, encrypted cookie plaintexts whose cookies are observed after authentication, '
+ 'server responses through NewResponsePacket/ProcessResponse (1..12 cookies, cap at what fits, unequal lengths), hand-sealed packets with unknown extension fields between the known ones '
+ '(authenticator position observed through acceptance), fresh and stale 1024-byte caller buffers, sizes at 1020/1024/1028 bytes, oversized packets; decoder fed mutated/truncated/lying '
  'encodings one after the other into one Packet. Server cookies: all 16-bit ids, key lengths 0..257, mutated TLVs, encrypt-decrypt. NTS-KE: record lists '
- '(server-shaped and arbitrary canonical records, Error/Warning, no End, two messages on one connection, trailing bytes, 32768..65535-byte and >65535-byte bodies) '
+ '(server-shaped and arbitrary canonical records incl. unknown non-critical types, bodies of 255/256/257/300/1000 bytes, Error/Warning, no End, two messages on one connection, trailing bytes, 32768..65535-byte and >65535-byte bodies; the unread rest is compared also after an error) '
  'and mutated byte streams, each read whole, one byte at a time, half reads, data-with-EOF, and through random chunk schedules below default and 16..64-byte bufio buffers. '
  'Non-trivial: a case that exercises a full encode-decode, decode-re-encode or multi-segmentation comparison on a value inside the wire ranges (tag nt); '
  'distinct = distinct (kind, input)'),
@@ -37,5 +39,5 @@ CONF = dict(
  'and reproduced by the model. ReadData ignores the announced body length of NextProto/Algorithm/Port/Error records and reads 2 bytes: non-canonical bodies desynchronise the stream (model agrees).'),
     timeout_quick=900,
     timeout_thorough=3000,
-    min_cases={'ck.crypt': 90, 'ck.dec': 360, 'ck.enc': 1005, 'csptp.hist': 225, 'csptp.msg.dec': 360, 'csptp.msg.enc': 2652, 'csptp.req.dec': 360, 'csptp.req.enc': 1275, 'csptp.resp.dec': 360, 'csptp.resp.enc': 3566, 'ke.records': 556, 'ke.stream': 150, 'ntp.dec': 526, 'ntp.enc': 2588, 'ntp.hist': 90, 'ntp.set': 3916, 'nts.dec': 450, 'nts.enc': 462},
+    min_cases={'ck.crypt': 90, 'ck.dec': 360, 'ck.enc': 1005, 'csptp.hist': 225, 'csptp.msg.dec': 360, 'csptp.msg.enc': 2652, 'csptp.req.dec': 360, 'csptp.req.enc': 1275, 'csptp.resp.dec': 360, 'csptp.resp.enc': 3566, 'ke.records': 556, 'ke.stream': 150, 'ntp.dec': 526, 'ntp.enc': 2588, 'ntp.hist': 90, 'ntp.set': 3916, 'nts.dec': 450, 'nts.enc': 462, 'nts.resp': 225, 'nts.pos': 225},
 )
